@@ -276,6 +276,43 @@ class _Global(ast.NodeTransformer):
                 t = res[-2].test
                 res[-2].test = t.operand if isinstance(t, ast.UnaryOp) and isinstance(t.op, ast.Not) else ast.UnaryOp(op=ast.Not(), operand=t)
                 res[-2].body[0].value, res[-1].value = b_, a_
+        # G21b: search loop with `else`:  `for T in I: if C: break` `else: X`  ->  `if not any(C for T in I): X`  (the body is a tree of ifs whose
+        #       leaves are a bare `break`; the else block runs exactly when no element satisfied a leaf's path condition)
+        def _found_break(stmts):
+            if len(stmts) == 1 and isinstance(stmts[0], ast.Break):
+                return True
+            alts = []
+            for s_ in stmts:
+                if isinstance(s_, ast.Pass):
+                    continue
+                if not isinstance(s_, ast.If):
+                    return None
+                b_, o_ = _found_break(s_.body), _found_break(s_.orelse) if s_.orelse else False
+                if b_ is None or o_ is None:
+                    return None
+                for cond_, sub_ in ((s_.test, b_), (ast.UnaryOp(op=ast.Not(), operand=copy.deepcopy(s_.test)), o_)):
+                    if sub_ is False:
+                        continue
+                    if sub_ is True:
+                        alts.append(cond_)
+                    else:
+                        vals = (cond_.values if isinstance(cond_, ast.BoolOp) and isinstance(cond_.op, ast.And) else [cond_]) + \
+                               (sub_.values if isinstance(sub_, ast.BoolOp) and isinstance(sub_.op, ast.And) else [sub_])
+                        alts.append(ast.BoolOp(op=ast.And(), values=list(vals)))
+            if not alts:
+                return False
+            return alts[0] if len(alts) == 1 else ast.BoolOp(op=ast.Or(), values=alts)
+        for j_, lp_ in enumerate(res):
+            if isinstance(lp_, ast.For) and lp_.orelse and lp_.body:
+                c_ = _found_break(lp_.body)
+                if c_ in (None, True, False):
+                    continue
+                found_ = ast.Call(func=ast.Name(id="any", ctx=ast.Load()), args=[ast.GeneratorExp(elt=c_, generators=[
+                    ast.comprehension(target=lp_.target, iter=lp_.iter, ifs=[], is_async=0)])], keywords=[])
+                new_if_ = ast.If(test=ast.UnaryOp(op=ast.Not(), operand=found_), body=lp_.orelse, orelse=[])
+                ast.copy_location(new_if_, lp_)
+                ast.fix_missing_locations(new_if_)
+                res[j_] = new_if_
         # G21: search loop with a flag:  `f = True` ; `for T in I: if C: f = False; break` ; `if f: X`   (f used nowhere else in the block)
         #      -> `if not any(C for T in I): X`        (and the dual with f = False / f = True / `if not f`)
         j = 0
@@ -343,6 +380,23 @@ class _Global(ast.NodeTransformer):
             ast.fix_missing_locations(new_if)
             res[j - 1:j + 2] = [new_if]
             j = max(j - 1, 0)
+        # G28: `x = <freshly built list>` ; `x.sort(**kw)`  ->  `x = sorted(<that list>, **kw)`   (list(...), a list display or comprehension: nobody else holds it)
+        j = 0
+        while j + 1 < len(res):
+            a, b = res[j], res[j + 1]
+            j += 1
+            tg = a.targets[0] if isinstance(a, ast.Assign) and len(a.targets) == 1 else (a.target if isinstance(a, ast.AnnAssign) and a.value is not None else None)
+            if not (isinstance(tg, ast.Name) and isinstance(b, ast.Expr) and isinstance(b.value, ast.Call) and isinstance(b.value.func, ast.Attribute)
+                    and b.value.func.attr == "sort" and isinstance(b.value.func.value, ast.Name) and b.value.func.value.id == tg.id and not b.value.args):
+                continue
+            v = a.value
+            fresh = isinstance(v, (ast.List, ast.ListComp)) or (isinstance(v, ast.Call) and isinstance(v.func, ast.Name) and v.func.id in ("list", "sorted"))
+            if not fresh or any(isinstance(x, ast.Name) and x.id == tg.id for k_ in b.value.keywords for x in ast.walk(k_.value)):
+                continue
+            new_a = ast.copy_location(ast.Assign(targets=[ast.Name(id=tg.id, ctx=ast.Store())],
+                                                 value=ast.Call(func=ast.Name(id="sorted", ctx=ast.Load()), args=[v], keywords=b.value.keywords)), a)
+            ast.fix_missing_locations(new_a)
+            res[j - 1:j + 1] = [new_a]
         # G10: `xs = []` ... `for T in I: [if C:] xs.append(E)` -> `xs = [E for T in I if C]` (nothing in between mentions xs)
         changed = True
         while changed:
@@ -356,8 +410,12 @@ class _Global(ast.NodeTransformer):
                     st = res[i]
                     tgt = st.targets[0] if isinstance(st, ast.Assign) and len(st.targets) == 1 else (st.target if isinstance(st, ast.AnnAssign) and st.value is not None else None)
                     if isinstance(tgt, ast.Name) and tgt.id == name:
-                        empty = isinstance(st.value, ast.List) and not st.value.elts or (isinstance(st.value, ast.Call) and isinstance(st.value.func, ast.Name)
-                                                                                          and st.value.func.id == "list" and not st.value.args and not st.value.keywords)
+                        if isinstance(comp, ast.DictComp):
+                            empty = isinstance(st.value, ast.Dict) and not st.value.keys or (isinstance(st.value, ast.Call) and isinstance(st.value.func, ast.Name)
+                                                                                             and st.value.func.id == "dict" and not st.value.args and not st.value.keywords)
+                        else:
+                            empty = isinstance(st.value, ast.List) and not st.value.elts or (isinstance(st.value, ast.Call) and isinstance(st.value.func, ast.Name)
+                                                                                              and st.value.func.id == "list" and not st.value.args and not st.value.keywords)
                         if empty:
                             new_st = copy.copy(st)
                             new_st.value = comp
@@ -381,6 +439,14 @@ class _Global(ast.NodeTransformer):
         if isinstance(st, ast.If) and not st.orelse and len(st.body) == 1:
             ifs = [st.test]
             st = st.body[0]
+        if isinstance(st, ast.Assign) and len(st.targets) == 1 and isinstance(st.targets[0], ast.Subscript) and isinstance(st.targets[0].value, ast.Name) \
+                and not isinstance(st.targets[0].slice, ast.Slice):
+            # G10b: `d = {}` ... `for T in I: [if C:] d[K] = V` -> `d = {K: V for T in I if C}` (later keys overwrite earlier ones in both spellings)
+            name = st.targets[0].value.id
+            for part in (lp.iter, lp.target, st.targets[0].slice, st.value, *ifs):
+                if any(isinstance(x, ast.Name) and x.id == name for x in ast.walk(part)):
+                    return None
+            return name, ast.DictComp(key=st.targets[0].slice, value=st.value, generators=[ast.comprehension(target=lp.target, iter=lp.iter, ifs=ifs, is_async=0)])
         if not (isinstance(st, ast.Expr) and isinstance(st.value, ast.Call) and isinstance(st.value.func, ast.Attribute) and st.value.func.attr == "append"
                 and isinstance(st.value.func.value, ast.Name) and len(st.value.args) == 1 and not st.value.keywords):
             return None
@@ -1122,6 +1188,218 @@ def _unroll_const_loops(fn: ast.FunctionDef, log: list[str]) -> bool:
     return changed
 
 
+def _expand_const_table_comprehensions(fn: ast.FunctionDef, log: list[str]) -> bool:
+    """G24 (in place): `tuple(E for a, b in T)` / `[E for a, b in T]` / `(E for ...)` passed to tuple/list, where T is a literal tuple / list of
+    at most 8 rows of constants (or plain names / attribute chains) - written inline or bound once to a local used only there - becomes the
+    literal tuple / list of the instantiated elements: a table-driven spelling of an explicit enumeration"""
+    changed = False
+    # locals bound once to a literal table
+    tables: dict[str, ast.AST] = {}
+    stores: dict[str, int] = {}
+    for n in _walk_fn(fn):
+        if isinstance(n, ast.Name) and isinstance(n.ctx, ast.Store):
+            stores[n.id] = stores.get(n.id, 0) + 1
+
+    def is_row(e) -> bool:
+        simple = lambda x: isinstance(x, ast.Constant) or (isinstance(x, (ast.Name, ast.Attribute)) and _dotted(x) is not None)
+        return simple(e) or (isinstance(e, (ast.Tuple, ast.List)) and all(simple(x) for x in e.elts))
+
+    def is_table(e) -> bool:
+        return isinstance(e, (ast.Tuple, ast.List)) and 1 <= len(e.elts) <= 8 and all(is_row(r) for r in e.elts)
+    for st in _walk_fn(fn):
+        if isinstance(st, (ast.Assign, ast.AnnAssign)) and getattr(st, "value", None) is not None:
+            tg = st.targets[0] if isinstance(st, ast.Assign) and len(st.targets) == 1 else (st.target if isinstance(st, ast.AnnAssign) else None)
+            if isinstance(tg, ast.Name) and stores.get(tg.id) == 1 and is_table(st.value):
+                tables[tg.id] = st.value
+
+    class T(ast.NodeTransformer):
+        def _unrolled(self, comp):
+            if len(comp.generators) != 1 or comp.generators[0].ifs or comp.generators[0].is_async:
+                return None
+            g = comp.generators[0]
+            tab = g.iter if is_table(g.iter) else (tables.get(g.iter.id) if isinstance(g.iter, ast.Name) else None)
+            if tab is None:
+                return None
+            names = [g.target.id] if isinstance(g.target, ast.Name) else ([t.id for t in g.target.elts] if isinstance(g.target, ast.Tuple) and all(isinstance(t, ast.Name) for t in g.target.elts) else None)
+            if names is None:
+                return None
+            out = []
+            for row in tab.elts:
+                vals = [row] if isinstance(g.target, ast.Name) else (list(row.elts) if isinstance(row, (ast.Tuple, ast.List)) else None)
+                if vals is None or len(vals) != len(names):
+                    return None
+                e = copy.deepcopy(comp.elt)
+                e = _Subst(dict(zip(names, vals))).visit(e)
+                out.append(e)
+            return out
+
+        def visit_Call(self, n):
+            self.generic_visit(n)
+            d = _dotted(n.func)
+            if d in ("tuple", "list") and len(n.args) == 1 and not n.keywords and isinstance(n.args[0], (ast.GeneratorExp, ast.ListComp)):
+                elts = self._unrolled(n.args[0])
+                if elts is not None:
+                    nonlocal changed
+                    changed = True
+                    return ast.copy_location((ast.Tuple if d == "tuple" else ast.List)(elts=elts, ctx=ast.Load()), n)
+            return n
+
+        def visit_ListComp(self, n):
+            self.generic_visit(n)
+            elts = self._unrolled(n)
+            if elts is not None:
+                nonlocal changed
+                changed = True
+                return ast.copy_location(ast.List(elts=elts, ctx=ast.Load()), n)
+            return n
+    T().visit(fn)
+    if changed:
+        log.append(f"expanded a comprehension over a constant table in {fn.name}")
+        ast.fix_missing_locations(fn)
+    return changed
+
+
+def _fuse_comprehensions(fn: ast.FunctionDef, log: list[str]) -> bool:
+    """G25 (in place): `E2 for n in [E1 for v in I if C]` -> `E2[n := E1] for v in I if C` when n is a plain name and E1 has no calls (attribute reads,
+    subscripts, names): mapping and then consuming is the same as consuming the mapped element directly"""
+    changed = False
+
+    class T(ast.NodeTransformer):
+        def _fuse(self, comp):
+            nonlocal changed
+            if len(comp.generators) != 1:
+                return comp
+            g = comp.generators[0]
+            inner = g.iter
+            if not (isinstance(g.target, ast.Name) and isinstance(inner, (ast.ListComp, ast.GeneratorExp)) and len(inner.generators) == 1 and not g.is_async):
+                return comp
+            if any(isinstance(x, (ast.Call, ast.Await, ast.Yield, ast.NamedExpr)) for x in ast.walk(inner.elt)):
+                return comp
+            ig = inner.generators[0]
+            inner_names = {x.id for x in ast.walk(ig.target) if isinstance(x, ast.Name)}
+            outer_names = {x.id for x in ast.walk(comp) if isinstance(x, ast.Name)} - {g.target.id}
+            if inner_names & (outer_names - {x.id for x in ast.walk(inner) if isinstance(x, ast.Name)}):
+                return comp   # the inner loop variable would capture a name of the outer element
+            sub = {g.target.id: inner.elt}
+            for fld in ("elt", "key", "value"):
+                if hasattr(comp, fld):
+                    setattr(comp, fld, _Subst(sub).visit(getattr(comp, fld)))
+            new_ifs = list(ig.ifs) + [_Subst(sub).visit(i_) for i_ in g.ifs]
+            comp.generators = [ast.comprehension(target=ig.target, iter=ig.iter, ifs=new_ifs, is_async=0)]
+            changed = True
+            return comp
+
+        def visit_ListComp(self, n):
+            self.generic_visit(n)
+            return self._fuse(n)
+
+        visit_GeneratorExp = visit_SetComp = visit_ListComp
+
+        def visit_DictComp(self, n):
+            self.generic_visit(n)
+            return self._fuse(n)
+    T().visit(fn)
+    if changed:
+        log.append(f"fused nested comprehensions in {fn.name}")
+        ast.fix_missing_locations(fn)
+    return changed
+
+
+def _namedtuples_to_tuples(tree: ast.Module, modname: str, log: list[str]) -> None:
+    """G29: a class that the reference does not have, derives from NamedTuple and only declares fields is a tuple with names: its constructor calls
+    become tuple displays (positional, or keywords placed by field order) and the class is dropped when nothing else mentions it"""
+    ref_fns = reference()["functions"]
+    known_classes = {q.rsplit(".", 2)[-2] for q in ref_fns if q.startswith(modname + ".") and q.count(".") > modname.count(".") + 1}
+    ref_assigns = set(reference().get("module_assigns", {}).get(modname, []))
+    for cls in [st for st in tree.body if isinstance(st, ast.ClassDef)]:
+        if cls.name in known_classes or cls.name in ref_assigns or not any(_dotted(b) in ("NamedTuple", "typing.NamedTuple") for b in cls.bases):
+            continue
+        fields = [st.target.id for st in cls.body if isinstance(st, ast.AnnAssign) and isinstance(st.target, ast.Name)]
+        if not fields or any(not (isinstance(st, ast.AnnAssign) or (isinstance(st, ast.Expr) and isinstance(st.value, ast.Constant))) for st in cls.body):
+            continue
+        defaults = {st.target.id: st.value for st in cls.body if isinstance(st, ast.AnnAssign) and st.value is not None}
+        ok = True
+
+        class T(ast.NodeTransformer):
+            def visit_Call(s_, n):
+                nonlocal ok
+                s_.generic_visit(n)
+                if _dotted(n.func) != cls.name:
+                    return n
+                vals = dict(zip(fields, n.args))
+                for k in n.keywords:
+                    if k.arg is None or k.arg not in fields or k.arg in vals:
+                        ok = False
+                        return n
+                    vals[k.arg] = k.value
+                for f_ in fields:
+                    if f_ not in vals:
+                        if f_ in defaults:
+                            vals[f_] = copy.deepcopy(defaults[f_])
+                        else:
+                            ok = False
+                            return n
+                if any(isinstance(a_, ast.Starred) for a_ in n.args):
+                    ok = False
+                    return n
+                return ast.copy_location(ast.Tuple(elts=[vals[f_] for f_ in fields], ctx=ast.Load()), n)
+        new_tree = T().visit(copy.deepcopy(tree))
+        # attribute access by field name on such a tuple cannot be rewritten here: only take the rewrite when no `.field` read of a new field name
+        # appears next to the class (unpacking is the common use)
+        others = [x for x in ast.walk(new_tree) if isinstance(x, ast.Name) and x.id == cls.name and isinstance(x.ctx, ast.Load)]
+        only_annotations = True
+        ann_ids = {id(y) for x in ast.walk(new_tree) for fld in ("annotation", "returns") for a_ in [getattr(x, fld, None)] if a_ is not None for y in ast.walk(a_)}
+        for x in others:
+            if id(x) not in ann_ids:
+                only_annotations = False
+        if not ok or not only_annotations:
+            continue
+        tree.body[:] = [st for st in new_tree.body if not (isinstance(st, ast.ClassDef) and st.name == cls.name)]
+        log.append(f"constructor calls of the new NamedTuple {cls.name} written as tuples in {modname}")
+    ast.fix_missing_locations(tree)
+
+
+def _expand_new_kwargs_tables(tree: ast.Module, modname: str, log: list[str]) -> None:
+    """G26: a module-level dict literal with constant string keys that the reference does not have and that is used only as `**NAME` in calls
+    (decorator options shared by several classes) is written back as explicit keywords at every call, and dropped"""
+    ref_assigns = set(reference().get("module_assigns", {}).get(modname, []))
+    cands = {}
+    for st in tree.body:
+        tg = st.targets[0] if isinstance(st, ast.Assign) and len(st.targets) == 1 else (st.target if isinstance(st, ast.AnnAssign) and st.value is not None else None)
+        if isinstance(tg, ast.Name) and tg.id not in ref_assigns and isinstance(st.value, ast.Dict) and st.value.keys \
+                and all(isinstance(k, ast.Constant) and isinstance(k.value, str) and k.value.isidentifier() for k in st.value.keys) \
+                and all(_is_literal_constant(v) for v in st.value.values):
+            cands[tg.id] = st
+    if not cands:
+        return
+    uses = {n: 0 for n in cands}
+    star_uses = {n: 0 for n in cands}
+    for x in ast.walk(tree):
+        if isinstance(x, ast.Name) and isinstance(x.ctx, ast.Load) and x.id in cands:
+            uses[x.id] += 1
+        if isinstance(x, ast.keyword) and x.arg is None and isinstance(x.value, ast.Name) and x.value.id in cands:
+            star_uses[x.value.id] += 1
+    for name, st in cands.items():
+        if not uses[name] or uses[name] != star_uses[name]:
+            continue
+        d = st.value
+        for x in ast.walk(tree):
+            if isinstance(x, ast.Call) and any(k.arg is None and isinstance(k.value, ast.Name) and k.value.id == name for k in x.keywords):
+                new_kw = []
+                for k in x.keywords:
+                    if k.arg is None and isinstance(k.value, ast.Name) and k.value.id == name:
+                        new_kw += [ast.keyword(arg=kk.value, value=copy.deepcopy(vv)) for kk, vv in zip(d.keys, d.values)]
+                    else:
+                        new_kw.append(k)
+                x.keywords = new_kw
+        i = tree.body.index(st)
+        del tree.body[i]
+        if i < len(tree.body) and isinstance(tree.body[i], ast.Expr) and isinstance(tree.body[i].value, ast.Constant) and isinstance(tree.body[i].value.value, str):
+            del tree.body[i]   # its attribute docstring
+        log.append(f"expanded **{name} into explicit keywords in {modname}")
+    ast.fix_missing_locations(tree)
+
+
 def _dfs_names(fn: ast.AST) -> list[ast.Name]:
     "Name nodes of a function in source (depth-first, left-to-right) order; assignments: value before targets"
     out: list[ast.Name] = []
@@ -1177,6 +1455,57 @@ def _split_tuple_copies(fn: ast.FunctionDef) -> bool:
     return changed
 
 
+def _read_later(fn: ast.FunctionDef, st: ast.stmt, name: str) -> bool:
+    """can a read of `name` follow statement `st`?  the statements after st in its own block and in every enclosing block (sibling branches of an
+    enclosing `if` are not reachable from st), plus - for an enclosing loop that does not itself re-bind `name` as its target - the whole loop"""
+    parents = {}
+    for p_ in [fn, *_walk_fn(fn)]:
+        for ch in ast.iter_child_nodes(p_):
+            parents[ch] = p_
+    later: list[ast.AST] = []
+    cur: ast.AST = st
+    rebinder = None
+    while cur in parents:
+        par = parents[cur]
+        for fld in ("body", "orelse", "finalbody", "handlers"):
+            blk = getattr(par, fld, None)
+            if isinstance(blk, list) and any(x is cur for x in blk):
+                i = next(k for k, x in enumerate(blk) if x is cur)
+                later += blk[i + 1:]
+                if isinstance(par, ast.Try) and fld == "body":
+                    later += [*par.handlers, *par.orelse, *par.finalbody]
+        if isinstance(par, (ast.For, ast.While)):
+            tgt_names = {x.id for x in ast.walk(par.target) if isinstance(x, ast.Name)} if isinstance(par, ast.For) else set()
+            if name in tgt_names:
+                rebinder = rebinder or par   # every way back into this loop's body passes its head, which re-binds the name
+            elif rebinder is None:
+                later.append(par)
+            else:
+                later += [x for x in [*par.body, *par.orelse] if x is not rebinder and not any(y is rebinder for y in ast.walk(x))]
+                if isinstance(par, ast.While):
+                    later.append(par.test)
+        cur = par
+    def reads(node) -> bool:
+        "a read of the outer `name` inside node (names bound by a comprehension / lambda of their own are not it)"
+        if isinstance(node, (ast.ListComp, ast.SetComp, ast.DictComp, ast.GeneratorExp)):
+            bound = {x.id for g in node.generators for x in ast.walk(g.target) if isinstance(x, ast.Name)}
+            if name in bound:
+                return any(reads(g.iter) for g in node.generators[:1])
+        if isinstance(node, ast.Lambda) and name in {a_.arg for a_ in node.args.args}:
+            return False
+        if isinstance(node, ast.Name):
+            return node.id == name and isinstance(node.ctx, ast.Load)
+        return any(reads(ch) for ch in ast.iter_child_nodes(node))
+    for n_ in later:
+        if isinstance(n_, ast.For) and name in {x.id for x in ast.walk(n_.target) if isinstance(x, ast.Name)}:
+            if reads(n_.iter):
+                return True
+            continue   # the loop re-binds the name before its body reads it
+        if reads(n_):
+            return True
+    return False
+
+
 def _coalesce_copies(fn: ast.FunctionDef, ref_locals: list[str], log: list[str]) -> bool:
     """R1b (in place): `x = t` where t is a local that is new w.r.t. the reference and dead afterwards, and x is bound only here and
     not read before: t *is* x - rename t to x and drop the copy (left behind by helper inlining / tuple returns)"""
@@ -1195,6 +1524,16 @@ def _coalesce_copies(fn: ast.FunctionDef, ref_locals: list[str], log: list[str])
                     if not (isinstance(st, ast.Assign) and len(st.targets) == 1 and isinstance(st.targets[0], ast.Name) and isinstance(st.value, ast.Name)):
                         continue
                     x, t = st.targets[0].id, st.value.id
+                    if x != t and x not in params and x not in ref_locals and x.count("__") and not _read_later(fn, st, t) \
+                            and not any(n.id == x and n is not st.targets[0] and order[id(n)] < order[id(st.value)] for n in names):
+                        # the reverse: `p__helper = t` left by inlining a helper that re-binds its parameter, t never read again: the helper's local *is* t
+                        blk.remove(st)
+                        if not blk:
+                            blk.append(ast.copy_location(ast.Pass(), st))
+                        _Rename({x: t}).visit(fn)
+                        log.append(f"coalesced copy `{x} = {t}` into `{t}`")
+                        progressed = changed = True
+                        break
                     if x == t or t in params or x in params or t in ref_locals:
                         continue
                     here = order[id(st.value)]
@@ -1420,10 +1759,18 @@ class _Inliner:
         if m is None:
             return None
         body = copy.deepcopy(_body_wo_doc(callee))
-        # a parameter that is re-bound inside the helper cannot be substituted
+        # a parameter that is re-bound inside the helper is a local of the helper initialised from the argument: it becomes a fresh local of the
+        # caller, `p__helper = <argument>`, in front of the inlined body (copy coalescing merges it back when the caller's name is dead afterwards)
         rebinding = {n.id for st in body for n in ast.walk(st) if isinstance(n, ast.Name) and isinstance(n.ctx, ast.Store)}
-        if rebinding & set(m):
-            return None
+        pre: list[ast.stmt] = []
+        for p_ in sorted(rebinding & set(m)):
+            fresh = f"{p_}__{callee.name.strip('_')}"
+            pre.append(ast.Assign(targets=[ast.Name(id=fresh, ctx=ast.Store())], value=m.pop(p_)))
+            mod_ = ast.Module(body=body, type_ignores=[])
+            _Rename({p_: fresh}).visit(mod_)
+            body = mod_.body
+            rebinding = (rebinding - {p_}) | {fresh}
+        body = pre + body
         # helper locals must not capture caller names
         caller_names = set(local_names(caller))
         clash = (rebinding & caller_names)
@@ -1804,10 +2151,12 @@ def normalize_module(tree: ast.Module, modname: str, log: list[str] | None = Non
                             if a.name in fs and cand_mod != modname:
                                 imported[a.asname or a.name] = _Global().visit(copy.deepcopy(fs[a.name]))
     tree = _Global().visit(tree)
-    fns = _functions(tree, modname)
     known_mod = any(q.startswith(modname + ".") for q in ref)
     if not known_mod:
         return _fix(tree)
+    _expand_new_kwargs_tables(tree, modname, log)
+    _namedtuples_to_tuples(tree, modname, log)
+    fns = _functions(tree, modname)   # (after the module-level rewrites: they may replace nodes)
     _inline_new_module_constants(tree, modname, log)
     tree = _LocalAnnotations().visit(tree)  # G20 early: bare local annotations would count as extra bindings below
     new = [(q, f, c, b) for q, f, c, b in fns if q not in ref]
@@ -1862,7 +2211,8 @@ def normalize_module(tree: ast.Module, modname: str, log: list[str] | None = Non
             for st_ in body:
                 if isinstance(st_, ast.ClassDef):
                     yield from _decl_blocks(st_.body)
-                elif isinstance(st_, (ast.Assign, ast.AnnAssign)) and any(isinstance(x, ast.Lambda) for x in ast.walk(st_)):
+                elif isinstance(st_, (ast.Assign, ast.AnnAssign)) and (any(isinstance(x, ast.Lambda) for x in ast.walk(st_)) or any(
+                        isinstance(x, (ast.Name, ast.Attribute)) and _dotted(x) in helpers for x in ast.walk(st_))):
                     yield body, st_
         for blk_, st_ in list(_decl_blocks(tree.body)):
             shim = ast.FunctionDef(name="<declaration>", args=ast.arguments(posonlyargs=[], args=[], kwonlyargs=[], kw_defaults=[], defaults=[]),
@@ -1908,6 +2258,10 @@ def normalize_module(tree: ast.Module, modname: str, log: list[str] | None = Non
             if _forward_substitute_single_use(f, rl, log):
                 _propagate_new_locals(f, rl, log)
             if _unroll_const_loops(f, log):
+                _propagate_new_locals(f, rl, log)
+            if _expand_const_table_comprehensions(f, log):
+                _propagate_new_locals(f, rl, log)
+            if _fuse_comprehensions(f, log):
                 _propagate_new_locals(f, rl, log)
             _recover_renames(f, rl, log, rh)
     for _ in range(4):
